@@ -146,6 +146,13 @@ func runCase(c *vlib.Ctx, specs []stores.MetricSpec, prefix, host string) {
 	}
 	x := &ctx{c: c, shape: strings.Join(sh, " + "), cfg: fmt.Sprintf("prefix=%q host=%q", prefix, host), prefix: prefix, host: host,
 		rep: map[string]interface{}{"metrics": d, "prefix": prefix, "host": host}}
+	checkAll(x, e, ms, st, prefix, host)
+	c.Eval(strings.Join(d, ";") + x.cfg)
+}
+
+func checkAll(x *ctx, e *exporter.Exporter, ms []*metrics.Metric, st *metrics.Store, prefix, host string) {
+	c := x.c
+	_ = c
 	inScope := func(m *metrics.Metric, hist bool) bool {
 		switch m.Kind {
 		case metrics.Counter, metrics.Gauge, metrics.Timer:
@@ -461,7 +468,84 @@ func runCase(c *vlib.Ctx, specs []stores.MetricSpec, prefix, host string) {
 			}
 		}
 	}
-	c.Eval(strings.Join(d, ";") + x.cfg)
+}
+
+// ---- histories: exports interleaved with label-set churn on one live metric
+// (an exporter-side or metric-side cache that survives between exports shows here)
+
+type hop struct {
+	kind string // set, remove
+	t    string
+}
+
+func runHistory(c *vlib.Ctx, sh stores.Shape, ops []hop) {
+	st := metrics.NewStore()
+	m := metrics.NewMetric("foo", "p", sh.Kind, sh.Type, "a")
+	if sh.Type == metrics.Buckets {
+		m.Buckets = stores.BucketRanges
+	}
+	_ = st.Add(m)
+	exporter.VerifSetPrefixes("")
+	e, err := exporter.New(context.Background(), st, exporter.Hostname("h"), exporter.PushInterval(10*time.Second), exporter.DisableExport())
+	if err != nil {
+		panic(err)
+	}
+	defer e.Stop()
+	var hs []string
+	for i, o := range ops {
+		hs = append(hs, o.kind+"("+o.t+")")
+		switch o.kind {
+		case "set":
+			d, _ := m.GetDatum(o.t)
+			ts := stores.Stamp(0, i)
+			switch sh.Type {
+			case metrics.Int:
+				datum.SetInt(d, int64(10*(i+1))+int64(len(o.t)), ts)
+			case metrics.Float:
+				datum.SetFloat(d, float64(i)+0.25, ts)
+			case metrics.Buckets:
+				datum.Observe(d, float64(i)+0.25, ts)
+			}
+		case "remove":
+			_ = m.RemoveDatum(o.t)
+		case "export":
+			x := &ctx{c: c, shape: fmt.Sprintf("history %s/%s", sh.Kind, sh.Type), cfg: " after " + strings.Join(hs, ";"), prefix: "", host: "h",
+				rep: map[string]interface{}{"shape": fmt.Sprintf("%s/%s keys=[a]", sh.Kind, sh.Type), "history": append([]string{}, hs...)}}
+			checkAll(x, e, []*metrics.Metric{m}, st, "", "h")
+		}
+	}
+	c.Eval("history " + fmt.Sprint(sh) + strings.Join(hs, ";"))
+}
+
+func histories(c *vlib.Ctx) int {
+	alpha := []hop{{"export", ""}}
+	for _, t := range []string{"x", "y", "z1"} {
+		alpha = append(alpha, hop{"set", t}, hop{"remove", t})
+	}
+	depth := c.Pick(6, 7) // including the final export
+	shapes := []stores.Shape{{Kind: metrics.Counter, Type: metrics.Int}, {Kind: metrics.Histogram, Type: metrics.Buckets}}
+	if c.Thorough() {
+		shapes = append(shapes, stores.Shape{Kind: metrics.Gauge, Type: metrics.Float})
+	}
+	n := 0
+	for _, sh := range shapes {
+		var rec func(cur []hop)
+		rec = func(cur []hop) {
+			if len(cur) == depth-1 {
+				runHistory(c, sh, append(append([]hop{}, cur...), hop{"export", ""}))
+				n++
+				return
+			}
+			for _, o := range alpha {
+				if o.kind == "export" && (len(cur) == 0 || cur[len(cur)-1].kind == "export") {
+					continue // an export of an unchanged metric adds nothing
+				}
+				rec(append(cur, o))
+			}
+		}
+		rec(nil)
+	}
+	return n
 }
 
 func main() {
@@ -518,7 +602,8 @@ func main() {
 			}
 		}
 	}
+	c.Set("histories", histories(c))
 	c.Set("stores", len(jobs))
 	c.Assume = []string{"label values are free of blanks and of the separators of the target formats, as the property requires", "records of metric kinds outside a format's scope (text; histograms for statsd/collectd) are neither required nor forbidden"}
-	c.Finish("all single-metric stores over 7 kind/type shapes × key lists {[], [a], [b,a]} × all label-set contents of size<=2 over {x,y,z1} × value rotations (ints, floats incl. non-finite, strings, histogram observation sets), and pairs with a second program's metric; × prefix {\"\", pfx.} × hostname {h, h.example}; formats varz, graphite (HTTP and push), statsd, collectd, JSON (generic decode + mtail's own decoder for integer stores); each output parsed by an independent parser: exactly one well-formed record per (metric, label set) in scope carrying that label set's value and timestamp. distinct_nontrivial = distinct (store, configuration)")
+	c.Finish("all single-metric stores over 7 kind/type shapes × key lists {[], [a], [b,a]} × all label-set contents of size<=2 over {x,y,z1} × value rotations (ints, floats incl. non-finite, strings, histogram observation sets), and pairs with a second program's metric; × prefix {\"\", pfx.} × hostname {h, h.example}; formats varz, graphite (HTTP and push), statsd, collectd, JSON (generic decode + mtail's own decoder for integer stores); each output parsed by an independent parser: exactly one well-formed record per (metric, label set) in scope carrying that label set's value and timestamp; plus all histories of length 6 (thorough 7) over {set t, remove t, export every format} × 3 label tuples on one live metric (int counter, histogram; thorough: float gauge), ending in an export. distinct_nontrivial = distinct (store, configuration)")
 }
